@@ -74,6 +74,7 @@ class Ref(object):
     capacity = None
     tlvs = None            # [(T, address)]
     ranges = None          # [(kind "lock"|"mem", first address, number of bytes)] declared by the control TLVs read
+    self_ref = False       # a control TLV declares bytes of its own T/L/V field: no consistent reading of the layout
     prior_spans = False    # a TLV in front of the NDEF TLV has a value that jumps over reserved bytes
 
     def __repr__(self):
@@ -158,6 +159,8 @@ def ref_read(mem, hr0, block_f=True, limit=2048):
                     raise Bad("control TLV with length %d" % ln)
                 rng_ = lock_range(val) if t == LOCK_T else mem_range(val)
                 r.ranges.append(("lock" if t == LOCK_T else "mem", rng_.start, len(rng_)))
+                if rng_.start <= addrs[-1] and rng_.stop > p:
+                    r.self_ref = True
                 reserved.update(x for x in rng_ if x < limit)
             elif t == NDEF_T:
                 r.status = "ndef"
